@@ -362,9 +362,22 @@ end HtmlVerif.Wire
 namespace HtmlVerif.Wire
 open HtmlVerif HtmlVerif.Hook
 
+/-- stored child: `it s`, `ih s`, `ir s`, `ig id`, `if s` (Tagifiable object), `ib s` (Tagifiable with `_repr_html_`) -/
+def hookItem : P Item := do
+  let t ← next
+  match t with
+  | "it" => .text <$> str
+  | "ih" => .html <$> str
+  | "ir" => .robj <$> str
+  | "ig" => .tagRef <$> nat
+  | "if" => .tobj <$> str
+  | "ib" => .trobj <$> str
+  | _ => throw s!"bad hook item {t}"
+
 /-- displayed value: `vn` None, `ve` Ellipsis, `vt s`, `vm txt` (number), `vh s` (HTML), `vr s` (`_repr_html_` object),
-    `vg id` (Tag), `vi` (invalid) -/
-def hookVal : P Val := do
+    `vg id` (Tag), `vi` (invalid), `vf s` (Tagifiable object), `vb s` (Tagifiable with `_repr_html_`),
+    `vq [ item* ]` (TagList), `vl [ val* ]` (list), `vu [ val* ]` (tuple) -/
+partial def hookVal : P Val := do
   let t ← next
   match t with
   | "vn" => pure .none
@@ -375,26 +388,22 @@ def hookVal : P Val := do
   | "vr" => .reprHtml <$> str
   | "vg" => .tagRef <$> nat
   | "vi" => pure .invalid
+  | "vf" => .tagifiable <$> str
+  | "vb" => .tagifiableRepr <$> str
+  | "vq" => .tagList <$> listOf hookItem
+  | "vl" => (fun l => .list (Vals.ofList l)) <$> listOf hookVal
+  | "vu" => (fun l => .tuple (Vals.ofList l)) <$> listOf hookVal
   | _ => throw s!"bad hook value {t}"
 
-/-- stored child: `it s`, `ih s`, `ir s`, `ig id` -/
-def hookItem : P Item := do
-  let t ← next
-  match t with
-  | "it" => .text <$> str
-  | "ih" => .html <$> str
-  | "ir" => .robj <$> str
-  | "ig" => .tagRef <$> nat
-  | _ => throw s!"bad hook item {t}"
-
 mutual
-  /-- statement: `d <val>` | `b <tag id> [ stmts ]` | `r` -/
+  /-- statement: `d <val>` | `b <tag id> [ stmts ]` | `r` | `k <tag id>` (new child-list object, same nodes) -/
   partial def hookProg : P Prog := do
     let t ← next
     match t with
     | "d" => .display <$> hookVal
     | "b" => do let i ← nat; let b ← hookProgs; pure (.block i b)
     | "r" => pure .raise
+    | "k" => .rebind <$> nat
     | _ => throw s!"bad hook statement {t}"
   partial def hookProgs : P Progs := do
     expect "["
@@ -421,21 +430,33 @@ def hookOutcome : P Outcome := do
     | _ => throw s!"bad error kind {k}"
   | _ => throw s!"bad outcome {t}"
 
-def encHookVal : Val → String
-  | .none => "vn"
-  | .ellipsis => "ve"
-  | .text s => "vt " ++ encStr s
-  | .num s => "vm " ++ encStr s
-  | .html s => "vh " ++ encStr s
-  | .reprHtml s => "vr " ++ encStr s
-  | .tagRef t => "vg " ++ toString t
-  | .invalid => "vi"
-
 def encHookItem : Item → String
   | .text s => "it " ++ encStr s
   | .html s => "ih " ++ encStr s
   | .robj s => "ir " ++ encStr s
   | .tagRef t => "ig " ++ toString t
+  | .tobj s => "if " ++ encStr s
+  | .trobj s => "ib " ++ encStr s
+
+mutual
+  def encHookVal : Val → String
+    | .none => "vn"
+    | .ellipsis => "ve"
+    | .text s => "vt " ++ encStr s
+    | .num s => "vm " ++ encStr s
+    | .html s => "vh " ++ encStr s
+    | .reprHtml s => "vr " ++ encStr s
+    | .tagRef t => "vg " ++ toString t
+    | .invalid => "vi"
+    | .tagifiable s => "vf " ++ encStr s
+    | .tagifiableRepr s => "vb " ++ encStr s
+    | .tagList its => "vq " ++ encList (its.map encHookItem)
+    | .list vs => "vl " ++ encList (encHookVals vs)
+    | .tuple vs => "vu " ++ encList (encHookVals vs)
+  def encHookVals : Vals → List String
+    | .nil => []
+    | .cons v vs => encHookVal v :: encHookVals vs
+end
 
 def encOutcome : Outcome → String
   | .done => "done"
